@@ -103,6 +103,29 @@ def boundary_grid(run):
     out.append((("generate", 0, ("lt", 7), ("add", 2), None, False), []))
     out.append((("generate", 0, ("lt", 7), ("add", 2), ("mul", 10), False), []))
     out.append((("generate", 1, ("lt", 7), ("mod", 3), None, True), []))
+    # strings and records as elements; deep merges; aggregator pipelines
+    strs = ("b", "ab", "", "a", "b", "abc")
+    recs = tuple({"a": a, "b": b} for a, b in [(2, "x"), (1, "y"), (2, "a"), (0, "x")])
+    for kind in ("tuple", "iter"):
+        for st in ([("orderBy", ("id",), True)], [("orderBy", ("strlen",), False), ("thenBy", ("id",), True)], [("distinct", None)],
+                   [("where", ("strlt", "b"))], [("select", ("strcat", "z"))], [("groupBy", ("strlen",), None)], [("toDict", ("id",), ("strlen",))],
+                   [("indexOf", "b")], [("sum", "")], [("toSet",)]):
+            out.append(((kind, strs), st))
+        for st in ([("orderBy", ("field", "b"), True), ("thenBy", ("field", "a"), False)], [("select", ("field", "a"))], [("where", ("fieldgt", "a", 1))],
+                   [("groupBy", ("field", "a"), ("field", "b"))], [("toDict", ("field", "b"), ("field", "a"))], [("distinct", ("field", "a"))],
+                   [("distinct", None)], [("indexOf", {"a": 1, "b": "y"})], [("toSet",)], [("toDict", ("id",), None)]):
+            out.append(((kind, recs), st))
+        for agg in ((), (("where", ("gt", 1)),), (("orderBy", ("id",), False), ("take", 1)), (("select", ("mul", 2)), ("skip", 1))):
+            for term in range(4):
+                out.append(((kind, (1, 2, 3, 4, 5, 2)), [("groupByAggP", ("mod", 2), None, agg, term)]))
+    deep = ((1, {1: {1: 1, 2: (1,)}, 2: 5}), (2, (1, 2)), (3, 7))
+    right = ((1, {1: {1: 9, 3: 4}, 2: {1: 1}, 3: 3}), (2, (2, 3)), (4, {1: 1}))
+    for ml in (None, 0, 1, 2, 3):
+        for lm in (None, ("add2",)):
+            for im in (None, ("fst",)):
+                out.append((("dict", deep), [("mergeWithX", right, lm, im, ml)]))
+    out.append((("dict", ((1, 5),)), [("mergeWithX", ((1, {1: 1}),), None, None, None)]))
+    out.append((("dict", ((1, {1: 1}),)), [("mergeWithX", ((1, 5),), None, None, None)]))
     out.append((("repeat", 1, -1), [("take", 3)]))
     out.append((("repeat", None, -1), [("skip", 2), ("take", 2)]))
     out.append((("sequence", 0), [("take", 4)]))
